@@ -543,7 +543,10 @@ def build_folded_type(ctx, state, const):
       n = MAX_VAR_SIZE - len(params) - 1
       elts = elements[:n] + tuple(typeconst(t) for t in params)
       state, vs = expand(state, elts)
-      return state, ctx.convert.build_list(state.node, vs)
+      lst = ctx.convert.build_list(state.node, vs)
+      for val in lst.data:
+        val.known_prefix = n
+      return state, lst
 
   def collect_map(state, params, elements):
     m_var = ctx.convert.build_map(state.node)
